@@ -97,10 +97,26 @@ func c12Digest(c *ev.Ctx, idx int, cc c12Case) (string, error) {
 		o := webp.DefaultOptions()
 		o.Lossless = cc.Kind == "lossless"
 		o.Method, o.Quality = cc.Method, cc.Quality
+		var src image.Image = m
 		if cc.Kind == "lossy" {
 			o.Partitions = cc.Extra
+			// every second lossy case: the remaining options (dithering, sharp YUV, segments, SNS, filters, rate
+			// control, alpha settings, Exact) drawn from their legal values and the source handed over as another
+			// Go image type - the colour import, analysis and alpha paths have their own parallel sections
+			if idx%2 == 1 {
+				or := rng(c, idx+3<<20)
+				lo := legalOpts(or, false)
+				lo.Method, lo.Quality, lo.Partitions = o.Method, o.Quality, o.Partitions
+				lo.ICC, lo.EXIF, lo.XMP = nil, nil, nil
+				lo.Pass = min(lo.Pass, 3)
+				if or.Intn(2) == 0 {
+					lo.Preprocessing |= 2 // pseudo-random dithering carries generator state through the import
+				}
+				o = lo
+				src = img.AsType(or, m, pickS(or, "NRGBA", "NRGBA", "RGBA", "Wrapper", "YCbCr", "NRGBA64"))
+			}
 		}
-		data, err := encode(m, o)
+		data, err := encode(src, o)
 		if err != nil {
 			return "", err
 		}
